@@ -676,6 +676,13 @@ struct Digit {
         SizeT64 exp = DigitUtils::RealNumberInfo<double, 8U>::Bias; // double only
         exp += bit;
         exp += shifted;
+
+        if (exp > SizeT64{2046}) {
+            // Beyond the largest finite double: infinity, not whatever the bits would spell.
+            number = 0x7FF0000000000000ULL;
+            return;
+        }
+
         exp <<= 52U;
         number &= 0xFFFFFFFFFFFFFULL;
         number |= exp;
